@@ -358,6 +358,8 @@ func runC18(c *Ctx) {
 		c.verdict(key, hdrSt.Pos(), good && n > 0, "Header entries range over the Header of the entry that provides Host", "RegistryHost.Header not bound to its own host: "+why)
 	}
 
+	clauseHubAliasOnContactedHost(c, "C18.f")
+
 	// ---------- C18.d ----------
 	const cri = "service/keychain/cri"
 	const is = cri + ".instrumentedService"
